@@ -1,7 +1,8 @@
 SPECIFICATION TSpec
 CONSTANTS
   MaxBytes = 1
-  Cuts = {"origin", "transit"}
+  Cuts = {"origin", "transit", "stall"}
+  ForwarderWaitsOnNode = FALSE
   AcceptLeavesDeadline = FALSE
   MaxNotices = 1000000
   NoticeEndsStream = FALSE
